@@ -49,6 +49,27 @@ FORMS1 = [("call", "{f}(va)"), ("bang", "{f} ! va"), ("splat", "{f}(...[va])"), 
 FORMS3 = [("call", "{f}(va, vb, vc)"), ("bang", "{f} ! va, vb, vc"), ("splat", "{f}(...[va, vb, vc])"),
           ("sec1", "{f}(_, vb, vc)(va)"), ("sec2", "{f}(va, _, vc)(vb)"), ("sec3", "{f}(va, vb, _)(vc)"),
           ("secall", "{f}(_, _, _)(va, vb, vc)")]
+# user-defined functions in the global environment, enumerated together with the builtins
+USER_FUNCS = {
+    "u_two": "u_two := \\a, b -> [a, b]",
+    "u_def": "u_def := \\a, b = 5 -> [a, b]",
+    "u_var": "u_var := \\...r -> r",
+    "u_mid": "u_mid := \\a, ...r, z -> [a, r, z]",
+    "u_comp": "u_comp := (\\x -> [x, x]) >>> len",
+    "u_flip": "u_flip := flip(-)",
+    "u_memo": "u_memo := memoize(\\a, b -> [a, b])",
+    "u_pa2": "u_pa2 := +(1)",
+    "u_pa1": "u_pa1 := (1 -)",
+    "u_sec": "u_sec := (_ - _)",
+    "u_on": "u_on := max on abs",
+    "u_fan": "u_fan := + &&& -",
+}
+
+
+def prelude(f):
+    return USER_FUNCS[f] + "; " if f in USER_FUNCS else ""
+
+
 # results whose top-level order is the iteration order of a freshly built hash map (unspecified: never compared)
 HASH_ORDERED = {"group_all", "keys", "values", "items"}
 # `x <= b` and `x >= b` are the comparison operators, not an operator assignment with `<` / `>`
@@ -102,7 +123,7 @@ def probe(funcs, pool, tuples_of, timeout_ms):
             by_first.setdefault(t[0], []).append(t)
         for first, ts in sorted(by_first.items()):
             cid = len(cases)
-            cases.append({"id": cid, "steps": [{"src": setup}] + [
+            cases.append({"id": cid, "steps": [{"src": prelude(f) + setup}] + [
                 {"src": "%s(%s)" % (f, ", ".join("p%d" % i for i in t))} for t in ts]})
             meta[cid] = (f, ts)
     res = limited_run(cases, timeout_ms)
@@ -121,7 +142,8 @@ def probe(funcs, pool, tuples_of, timeout_ms):
             else:
                 retry.append((f, t))
     if retry:
-        cases2 = [{"id": i, "steps": [{"src": setup}, {"src": "%s(%s)" % (f, ", ".join("p%d" % j for j in t))}]}
+        cases2 = [{"id": i, "steps": [{"src": prelude(f) + setup},
+                                      {"src": "%s(%s)" % (f, ", ".join("p%d" % j for j in t))}]}
                   for i, (f, t) in enumerate(retry)]
         res2 = limited_run(cases2, timeout_ms)
         for i, (f, t) in enumerate(retry):
@@ -147,7 +169,7 @@ def select(outcomes, f, tuples, pool, k_ok, k_fail, rng):
 
 def group_case(cid, f, t, pool, forms):
     names = ["va", "vb", "vc"][:len(t)]
-    setup = "; ".join("%s := %s" % (n, pool[i][1]) for n, i in zip(names, t)) + "; xx := null"
+    setup = prelude(f) + "; ".join("%s := %s" % (n, pool[i][1]) for n, i in zip(names, t)) + "; xx := null"
     steps = [{"src": setup}]
     roles = []
     if len(t) == 2:
@@ -230,6 +252,7 @@ def run(tier):
     mc = c04mc.run(rep, tier, wd)
 
     funcs, excluded = list_functions()
+    funcs = funcs + sorted(USER_FUNCS)
     pool = POOL_QUICK if tier == "quick" else POOL_QUICK + POOL_MORE
     n = len(pool)
     k_ok, k_fail = (8, 3) if tier == "quick" else (250, 25)
@@ -290,7 +313,7 @@ def run(tier):
                 "failing ones per function; non-trivial = distinct group whose explicit call f(args) succeeds, so that "
                 "values (not only failure) are compared across the forms; MC cases: non-trivial = distinct (function "
                 "value kind, arity, form, first-argument kind) judged by the property whose form evaluates to a value",
-        "functions": len(funcs), "functions_excluded": excluded, "pool": [k for k, _ in pool],
+        "functions": len(funcs), "user_defined_functions": sorted(USER_FUNCS), "functions_excluded": excluded, "pool": [k for k, _ in pool],
         "probes": len(out2) + len(out3) + 0, "groups": len(events), "groups_unjudged_resource": unjudged,
         "groups_call_ok": len(ok_groups),
         "groups_by_arity": {str(k): sum(1 for e in events if e["ar"] == k) for k in (1, 2, 3)},
